@@ -4,7 +4,7 @@
    i.e. over every number of threads, every program (any nesting / sequence of requests with any
    (shared, blocking, reentrant) flags) and every interleaving of their atomic sections. *)
 From Coq Require Import List Bool Arith PeanoNat.
-From PV Require Import C15.Model C15.Proofs C15.PathModel C15.PathProofs C15.PathProgress C15.TwoPaths C15.Users.
+From PV Require Import C15.Model C15.Proofs C15.PathModel C15.PathProofs C15.PathProgress C15.TwoPaths C15.Upgrade C15.Users.
 Import ListNotations.
 
 (* While a thread is inside an exclusive body no other thread holds the lock in any mode: every
@@ -211,6 +211,23 @@ Theorem path_no_lost_wakeup :
     others_hold (tl (getp ps p)) t = false -> n = true.
 Proof. exact path_no_lost_wakeup_lemma. Qed.
 
+(* Narrower guard (Upgrade.v): deadlock freedom of the thread level with AT MOST ONE UPGRADER AT A TIME.  g1_label
+   allows a blocking exclusive request by a thread that holds the lock only shared as long as no other thread currently
+   has such a request pending; every g_label-guarded schedule is g1-guarded (reachable_g_implies_g1).  So, since 01dac8d,
+   a single upgrader always makes progress; only two simultaneous upgraders can hang (Refuted.mutual_upgrade_deadlock_refuted). *)
+Theorem deadlock_free_single_upgrader :
+  forall s : state,
+    reachable_g1 s -> (exists t, stk s t <> []) -> exists t s', step s (t, AGo) = Some s'.
+Proof. exact deadlock_free_g1_lemma. Qed.
+
+Theorem reachable_g_implies_g1 : forall s : state, reachable_g s -> reachable_g1 s.
+Proof. exact reachable_g_g1. Qed.
+
+(* ... and in every such state at most one thread is an upgrader. *)
+Theorem at_most_one_upgrader :
+  forall (s : state) (t u : tid), reachable_g1 s -> upgraderb s t = true -> upgraderb s u = true -> t = u.
+Proof. intros s t u R. exact (reachable_g1_single s R t u). Qed.
+
 (* ================================================================================================
    Progress (PathProgress.v). *)
 
@@ -288,6 +305,15 @@ Theorem two_paths_excl_excludes :
     reachable2 pof s -> In f (gets (comp s i) t) -> at_body f = true -> f_sh f = false ->
     u <> t -> In g (gets (comp s i) u) -> at_body g = true -> False.
 Proof. exact two_paths_excl_lemma. Qed.
+
+(* Two-path deadlock freedom, any number of processes and threads: in every state reachable by steps that respect the
+   caller's lock-ordering duty (no request on path 0 while a request on path 1 is open: lock_ordered_label) and the
+   no-upgrade guard on each path (pg_label), whenever some thread has an open request some thread can run its next
+   atomic section. *)
+Theorem two_paths_deadlock_free :
+  forall (pof : tid -> nat) (s : state2),
+    reachable2_g pof s -> (exists t, ord s t <> []) -> exists i t s', step2 pof s (i, (t, PGo)) = Some s'.
+Proof. exact two_paths_deadlock_free_lemma. Qed.
 
 (* ================================================================================================
    The users of path_lock (Users.v).  What the regenerated obligation `writers_take_exclusive :
